@@ -516,6 +516,8 @@ def rule_who_writes(F, ev, R, config, rule="R-WHO-WRITES"):
                 R.bad(rule, config, b.key, "no-mut-escape", "public method returns a mutable reference `%s` into problem state" % out[:80], b.j["span"])
     # 3. writes / mutable borrows of problem fields
     for b in sorted(F.bodies.values(), key=lambda x: x.key):
+        if b.j.get("impl", {}).get("trait") == "std::clone::Clone" and b.name == "clone_from" and b.j.get("impl", {}).get("self_adt") in (ADT_PROBLEM, cache_adt_path(F)):
+            continue    # an overridden clone_from replaces every field by the source's: decided by R-CLONE-IDENTITY (same properties)
         for bi, si, s in b.stmts():
             if s["k"] != "assign":
                 continue
@@ -1124,6 +1126,45 @@ def rule_setter_frame(F, ev, R, config, rule="R-SETTER-FRAME"):
             else:
                 ok = t == ("field", ("param", b.key, 1), f)
                 R.add(rule, config, b.key, "keeps:" + f, ok, "" if ok else "%s() changes field `%s` to `%s`" % (b.name, f, short(t)[:80]), b.j["span"])
+    # every OTHER function that returns a builder: a conversion or a new setter. It must take a builder and hand every role
+    # on unchanged — except the threshold, which may only become Some(|argument|) (the contract of `epsilon`) — or be
+    # one of the plain constructors (R-CTOR-SIBLINGS) or Clone (R-CLONE-IDENTITY). Anything else creates builder states the
+    # reviewed API cannot (a conversion that forgets the threshold, a `From<Problem>` that feeds weighted data back in).
+    for b in sorted(F.bodies.values(), key=lambda x: x.key):
+        out = b.j.get("output", "")
+        if b.kind == "Closure" or not out.startswith(ADT_PBUILDER) and out not in ("Self",):
+            continue
+        im = b.j.get("impl", {})
+        if out == "Self" and im.get("self_adt") != ADT_PBUILDER:
+            continue
+        if im.get("trait") == "std::clone::Clone":
+            continue
+        if not im.get("trait") and b.j.get("vis") != "pub":
+            continue    # private helpers are seen through the public functions that call them
+        ins = b.j.get("inputs", [])
+        if im.get("self_adt") == ADT_PBUILDER and not im.get("trait") and (b.name in expect or ins == ["Model"]):
+            continue
+        takes_builder = bool(ins) and (ins[0].startswith(ADT_PBUILDER) or (ins[0] in ("Self", "self") and im.get("self_adt") == ADT_PBUILDER))
+        if not takes_builder:
+            R.bad(rule, config, b.key, "unreviewed-constructor", "`%s` builds a LevMarProblemBuilder from something that is not a builder: a new way to "
+                  "create builder states (needs review: observations must be the UNWEIGHTED data, the threshold |ε|, …)" % b.key[-60:], b.j["span"])
+            continue
+        ev.fresh_ctx()
+        v = ev.ret_val(Env(b))
+        fv = struct_view(F, v, ADT_PBUILDER)
+        if fv is None:
+            R.bad(rule, config, b.key, "frame", "returns `%s` (undetermined)" % short(v)[:120], b.j["span"])
+            continue
+        me1 = ("param", b.key, 1)
+        for f, t in sorted(fv.items()):
+            ok = t == ("field", me1, f)
+            if not ok and f == br["eps"]:
+                ok = (t[0] == "opt" and not t[2] and t[1][0] == "call" and t[1][1].rsplit("::", 1)[-1] in ("abs", "modulus", "norm1")
+                                         and len(t[1][3]) == 1 and t[1][3][0][0] == "param") or \
+                    (t[0] == "opt" and t[1][0] == "call" and t[1][1].rsplit("::", 1)[-1] in ("abs", "modulus", "norm1") and len(t[1][3]) == 1
+                     and t[1][3][0][0] == "payload" and t[1][3][0][1][0] == "param")
+            R.add(rule, config, b.key, "keeps:" + f, ok, "" if ok else "%s() changes field `%s` to `%s` (a conversion must keep every role; a threshold "
+                  "setter must store |ε|)" % (b.name, f, short(t)[:80]), b.j["span"])
     R.floor(rule, config, 16, "4 setters × 4 fields")
 
 
@@ -1436,4 +1477,85 @@ def rule_clone_identity(F, ev, R, config, rule="R-CLONE-IDENTITY", adts=None, gr
                         break
         R.add(rule, config, b.key, "clone-is-identity:" + adt.rsplit("::", 1)[-1], bad is None,
               "" if bad is None else "Clone for %s is not the identity copy: %s" % (adt.rsplit("::", 1)[-1], bad), b.j["span"])
+    # an overridden `clone_from(&mut self, source)` must leave self equal to source as well: every field is replaced, on every
+    # path, by (a clone of) the source's field — by assignment or by the field's own clone_from
+    for b in sorted(F.bodies.values(), key=lambda x: x.key):
+        im = b.j.get("impl", {})
+        adt = im.get("self_adt")
+        if b.kind == "Closure" or im.get("trait") != "std::clone::Clone" or b.name != "clone_from" or adt not in F.adts:
+            continue
+        if adts is not None and adt not in adts:
+            continue
+        if F.adts[adt].get("kind") == "Enum":
+            R.bad(rule, config, b.key, "clone_from-is-identity:" + adt.rsplit("::", 1)[-1], "hand-written clone_from on an enum (needs review)", b.j["span"])
+            continue
+        me, src = ("param", b.key, 1), ("param", b.key, 2)
+        env = Env(b)
+        names = [f["name"] for f in struct_fields(F, adt)]
+        covered = {}
+        badw = None
+        for bi, si, st in b.stmts():
+            if st["k"] != "assign":
+                continue
+            pf = [e for e in st["place"]["proj"] if e["k"] == "field" and e.get("owner") == adt]
+            if not pf:
+                continue
+            f_ = pf[0]["name"]
+            whole = len([e for e in st["place"]["proj"] if e["k"] in ("field", "downcast")]) == 1
+            v = strip(ev.rvalue(env, st["rv"], (bi, si)))
+            if whole and v == ("field", src, f_):
+                covered.setdefault(f_, set()).add(bi)
+            else:
+                badw = "field `%s` is set to `%s`" % (f_, short(v)[:80])
+        for bi, t in b.calls():
+            if "fn" in t and t["fn"]["name"] == "clone_from" and len(t["args"]) == 2:
+                a0 = ev.operand(env, t["args"][0], (bi, None))
+                a1 = ev.operand(env, t["args"][1], (bi, None))
+                while a0[0] == "mutated":
+                    a0 = a0[1]
+                if a0[0] == "field" and a0[1] == me and a1 == ("field", src, a0[2]):
+                    covered.setdefault(a0[2], set()).add(bi)
+        if badw is None:
+            for f_ in names:
+                blks = covered.get(f_, set())
+                if not blks or not b.must_pass(0, b.exits(), blks):
+                    badw = "field `%s` is not replaced by the source's on every path" % f_
+                    break
+        R.add(rule, config, b.key, "clone_from-is-identity:" + adt.rsplit("::", 1)[-1], badw is None,
+              "" if badw is None else "clone_from for %s does not make self a copy of the source: %s" % (adt.rsplit("::", 1)[-1], badw), b.j["span"])
     R.floor(rule, config, 1 if adts is not None else 5, "Clone impls of the state types")
+
+
+def rule_no_shadow(F, ev, R, config, rule="R-NO-SHADOW", adts=None):
+    """method resolution prefers inherent methods: a public inherent method of a state type with the NAME of a method of a
+    trait implemented for that type silently replaces the trait method for every direct call on the concrete type (the
+    solver, which calls through the trait, keeps using the other one). Allowed only when it returns exactly what the trait
+    method returns (a delegating convenience method)."""
+    types = set(adts or (ADT_PROBLEM, ADT_SEPMODEL, ADT_FITRESULT, ADT_STATS, ADT_PBUILDER, ADT_WEIGHTS))
+    trait_methods = {}
+    for b in F.bodies.values():
+        im = b.j.get("impl", {})
+        if b.kind != "Closure" and im.get("trait") and im.get("self_adt") in types and b.name:
+            trait_methods.setdefault((im["self_adt"], b.name), []).append(b)
+    n = 0
+    for b in sorted(F.bodies.values(), key=lambda x: x.key):
+        im = b.j.get("impl", {})
+        if b.kind == "Closure" or im.get("trait") or im.get("self_adt") not in types or b.j.get("vis") != "pub":
+            continue
+        n += 1
+        twins = [t for t in trait_methods.get((im["self_adt"], b.name), []) if t.j["impl"]["trait"] not in ("std::clone::Clone", "std::fmt::Debug", "std::default::Default")]
+        if not twins:
+            continue
+        ev.fresh_ctx()
+        vi = canon(ev.ret_val(Env(b)))
+        same = True
+        for t in twins:
+            ev.fresh_ctx()
+            vt = canon(ev.ret_val(Env(t)))
+            if vt != vi and not (vi[0] == "call" and vi[1].endswith("::" + b.name) and vi[3] and vi[3][0] == ("param", "", 1)):
+                same = False
+        R.add(rule, config, b.key, "inherent-shadows-trait:" + b.name, same,
+              "" if same else "the public inherent method `%s` takes precedence over `%s::%s` on the concrete type and returns something else: "
+              "direct calls and calls through the trait now disagree" % (b.name, twins[0].j["impl"]["trait"].split("<")[0], b.name), b.j["span"])
+    R.add(rule, config, "-", "inherent-methods-scanned", n > 0, "" if n else "no public inherent methods of the state types found (anchor)")
+    R.floor(rule, config, 1, "scan of the state types' public inherent methods")
